@@ -12,7 +12,7 @@ import pyfvtool as pf
 
 from ..oracles import CLASSES, NDIM, LIMITERS, SIDES, Geom
 from .. import gen, ops
-from ..common import SpySolver, interior_index, nerr, to_list, TOL
+from ..common import SpySolver, interior_index, nerr, to_list, TOL, solve_with
 
 ID = 'C01'
 RULE = ('cases = (grid class, N, spacing family, kind): kind "telescoping" = V-weighted column sums of the interior rows of '
@@ -244,7 +244,7 @@ def steps(case, rng, cls, faces, meta, g, m):
                         if scheme.endswith('tvd'):
                             terms.append(pf.convectionTVDupwindRHSTerm(uf, phi, pf.fluxLimiter(limname)))
                     spy = SpySolver()
-                    pf.solvePDE(phi, terms, externalsolver=spy)
+                    solve_with(pf, spy, phi, terms, default_path=bool(case['seed'][-1] % 2))
                     Mx, b, x = spy.last
                     A = sp.csr_array(Mx).copy()
                     A.data = np.abs(A.data)
@@ -375,6 +375,25 @@ def reconfig(case, rng, cls, faces, meta, g, m):
     side = SIDES[k][j]
     if mode == 'close-dirichlet':
         getattr(phi.BCs, side).fixedValue(float(rng.normal()))      # open system first
+    others = []
+    if mode == 'copies':
+        # template + copies: one copy of a closed template is opened (and stepped); the template and every other copy - made
+        # before or after - are closed systems of their own
+        template = phi
+        before = template.copy()
+        opened = template.copy()
+        getattr(opened.BCs, side).fixedValue(float(rng.normal()) + 2.0)
+        with np.errstate(all='ignore'):
+            pf.solvePDE(opened, [pf.transientTerm(opened, 0.1, 1.0), -pf.diffusionTerm(gen.facevar(pf, m, D))])
+        after = template.copy()
+        phi = [before, after, template][int(rng.integers(0, 3))]
+    elif mode == 'shared-bc':
+        # two variables built on ONE boundary-condition object (old/new pair, two species): the object is closed between steps and
+        # both variables are refreshed with the explicit apply_BCs() the documentation prescribes for shared objects
+        BCs = pf.BoundaryConditions(m)
+        getattr(BCs, side).fixedValue(float(rng.normal()))
+        phi = pf.CellVariable(m, vals.copy(), BCs)
+        others = [pf.CellVariable(m, vals[::-1].copy() if g.nd == 1 else vals.copy() * 0.5 + 1.0, BCs)]
     Df = gen.facevar(pf, m, D)
     worst, msg = 0.0, None
     with np.errstate(all='ignore'):
@@ -387,8 +406,15 @@ def reconfig(case, rng, cls, faces, meta, g, m):
                     idx[k] = [0, -1]
                     u[k][tuple(idx)] = float(rng.choice([-1.0, 1.0]) * rng.uniform(0.1, 0.5))   # through-flow across the periodic boundary
                     Df = gen.facevar(pf, m, D)
-                else:
+                elif mode == 'close-dirichlet':
                     getattr(phi.BCs, side).defaultNoFlux()
+                elif mode == 'shared-bc':
+                    getattr(phi.BCs, side).defaultNoFlux()
+                    phi.apply_BCs()
+                    for o_ in others:
+                        o_.apply_BCs()
+            if others:
+                phi, others = others[0], others[1:] + [phi]          # the variables of the pair take turns
             uf = gen.facevar(pf, m, u)
             dt = float(10 ** rng.uniform(-3, 1))
             I0 = phi.domainIntegral()
@@ -398,7 +424,7 @@ def reconfig(case, rng, cls, faces, meta, g, m):
             Mx, b, x = spy.last
             if not np.all(np.isfinite(phi.value)):
                 return None, cov, maxerr, 'reconfig', {}, False, 'non-finite solution'
-            if step == 0 and mode == 'close-dirichlet':
+            if step == 0 and mode in ('close-dirichlet', 'shared-bc'):
                 continue                                           # still open
             A = sp.csr_array(Mx).copy()
             A.data = np.abs(A.data)
@@ -546,7 +572,7 @@ def plan(tier, seed):
             for rep in range(3 if q else 60):
                 cases.append({'cls': cls, 'kind': 'open', 'scheme': scheme, 'seed': [seed, 1, ci, i]})
                 i += 1
-        for mode in ('to-periodic', 'close-dirichlet'):
+        for mode in ('to-periodic', 'close-dirichlet', 'copies', 'shared-bc'):
             for rep in range(8 if q else 120):
                 cases.append({'cls': cls, 'kind': 'reconfig', 'mode': mode, 'seed': [seed, 1, ci, i]})
                 i += 1
@@ -565,7 +591,7 @@ def floors(agg, tier):
         for kind, need in (('steps', 20), ('open', 6)):
             if agg['cov'].get('kind:%s:%s' % (kind, cls), 0) < need:
                 out.append('kind:%s:%s < %d' % (kind, cls, need))
-    for k in ('closure:periodic', 'closure:walls', 'carry:update:explicit', 'carry:update:implicit', 'carry:rebind:explicit', 'periodic_unequal_ends:implicit', 'periodic_unequal_ends:explicit', 'steps:implicit:upwind+tvd', 'steps:explicit:central', 'reconfig:to-periodic', 'reconfig:close-dirichlet'):
+    for k in ('closure:periodic', 'closure:walls', 'carry:update:explicit', 'carry:update:implicit', 'carry:rebind:explicit', 'periodic_unequal_ends:implicit', 'periodic_unequal_ends:explicit', 'steps:implicit:upwind+tvd', 'steps:explicit:central', 'reconfig:to-periodic', 'reconfig:close-dirichlet', 'reconfig:copies', 'reconfig:shared-bc'):
         if agg['cov'].get(k, 0) < 10:
             out.append('%s < 10' % k)
     return out
